@@ -47,7 +47,7 @@ var chainDefs = []chainDef{
 // builder succeeds and only the gates decide.
 const rippleDst = 38
 
-// evmSrc: chains 33 (eth) and 37 (bsc) are proof-authenticated sources with a real light client
+// evmSrc: chains 33 (eth), 37 (bsc) and 34 (hsc, behind the start-block gate) are proof-authenticated sources with a real light client
 // (trust root + headers installed in the template universe) and a pool of messages committed in
 // their world state per destination chain.
 type evmSrc struct {
@@ -415,12 +415,14 @@ func (h *hist) opImportEVM(e *evmSrc, src, dst uint64) {
 		why = "source-unregistered"
 	case h.black[src]:
 		why = "source-blacklisted"
+	case def(src).router == utils.HSC_ROUTER && h.w.E.Height < startBlock:
+		why = "router-not-active" // a VALID deposit of a router that is not active yet at this height
 	case !h.reg[dst]:
 		why = "destination-unregistered"
 	case h.black[dst]:
 		why = "destination-blacklisted"
 	}
-	h.shape += map[string]string{"": "E", "source-unregistered": "x", "source-blacklisted": "y", "destination-unregistered": "X", "destination-blacklisted": "Y"}[why]
+	h.shape += map[string]string{"": "E", "source-unregistered": "x", "source-blacklisted": "y", "router-not-active": "z", "destination-unregistered": "X", "destination-blacklisted": "Y"}[why]
 	restoring := why == "" && (h.justWhite[src] || h.justWhite[dst])
 	idx := h.rng.Intn(len(e.s.Heights) - 1)
 	o := h.w.Do(func() *nat.CallRecord { return e.s.Import(m, idx, nil) })
@@ -532,7 +534,10 @@ func runHistory(r *kit.Run, rng *rand.Rand, nVals int, idx int) {
 		for _, d := range []struct {
 			kind string
 			id   uint64
-		}{{"eth", 33}, {"bsc", 37}} {
+		}{{"eth", 33}, {"bsc", 37}, {"hsc", 34}} {
+			if d.kind == "hsc" { // its header sync is behind the same start-block gate: build it above the gate
+				w.E.Height = startBlock + 10
+			}
 			e := &evmSrc{s: w.NewEVMSource(krng, d.kind, d.id), pool: map[uint64][]cs.EVMMessage{}}
 			for _, cd := range chainDefs {
 				for i := 0; i < 5; i++ {
@@ -613,7 +618,7 @@ func runHistory(r *kit.Run, rng *rand.Rand, nVals int, idx int) {
 		case k < 82:
 			h.opImport(pickVote(), pick())
 		case k < 93:
-			h.opImport([]uint64{33, 37}[rng.Intn(2)], pick())
+			h.opImport([]uint64{33, 37, 34}[rng.Intn(3)], pick())
 		case k < 97: // towards the ripple destination
 			h.opImport([]uint64{30, 31, 32, 33, 37}[rng.Intn(5)], rippleDst)
 		default:
@@ -634,7 +639,7 @@ func runHistory(r *kit.Run, rng *rand.Rand, nVals int, idx int) {
 func TestC21(t *testing.T) {
 	r := kit.Start(t, "C21", "exploration")
 	defer r.Finish()
-	r.Rule("histories of 30 operations on main-net id over 8 chain ids (3 VOTE-router, eth and bsc with a real light client and committed messages, hsc, bytom, harmony): register+approve, register only / approvals below quorum, quit+approve, quit request only, BlackChain / WhiteChain by the operator and by non-operators, imports (voting rounds with fresh messages) between random chain pairs; block height walks over the router start block 18,823,000; distinct = (N, sequence of operation kinds incl. the gate each import hit)")
+	r.Rule("histories of 30 operations on main-net id over 8 chain ids (3 VOTE-router; eth, bsc and hsc with a real light client and committed messages, so that valid hsc deposits meet the start-block gate; bytom, harmony): register+approve, register only / approvals below quorum, quit+approve, quit request only, BlackChain / WhiteChain by the operator and by non-operators, imports (voting rounds with fresh messages) between random chain pairs; block height walks over the router start block 18,823,000; distinct = (N, sequence of operation kinds incl. the gate each import hit)")
 	polyeth.VerifSealBypass = true
 	defer func() { polyeth.VerifSealBypass = false }()
 	rng := r.Rand("histories")
@@ -654,6 +659,8 @@ func TestC21(t *testing.T) {
 	r.Require("rejected:destination-unregistered:ripple-destination", n/40)
 	r.Require("accepted:eth", n/20)
 	r.Require("accepted:bsc", n/20)
+	r.Require("accepted:hsc", n/40)
+	r.Require("rejected:router-not-active:hsc", n/40)
 	r.Require("rejected:source-blacklisted:eth", 1)
 	r.Require("rejected:source-blacklisted:bsc", 1)
 	r.Require("rejected:source-unregistered:eth", n/20)
